@@ -589,13 +589,56 @@ static uint64_t fnv_bytes(uint64_t h, const void *p, int64_t n)
 static uint64_t fnv_u64(uint64_t h, uint64_t v)
 { int i; for (i = 0; i < 8; i++) { h ^= (v >> (8*i)) & 0xff; h *= 0x100000001b3ull; } return h; }
 
+/* write the four dsqdata files by hand (format of esl_dsqdata_Write), so that accessions and taxonomy ids - which no
+ * text sequence format carries - are exercised too; packing uses the real dsqdata_pack5/pack2 */
+static int raw_write(const char *base, int amino, int n, BYTES *names, BYTES *accs, BYTES *descs, int32_t *taxids, BYTES *dsqs)
+{
+  char path[300]; FILE *ifp, *mfp, *sfp, *stub; int i;
+  uint32_t magic = eslDSQDATA_MAGIC_V1, tag = 123456789u, alphatype = amino ? eslAMINO : eslDNA, flags = 0;
+  uint32_t mxn = 0, mxa = 0, mxd = 0; uint64_t mxl = 0, nseq = n, nres = 0; int64_t spos = 0, mpos = 0;
+  snprintf(path, sizeof(path), "%s.dsqi", base); ifp = fopen(path, "wb");
+  snprintf(path, sizeof(path), "%s.dsqm", base); mfp = fopen(path, "wb");
+  snprintf(path, sizeof(path), "%s.dsqs", base); sfp = fopen(path, "wb");
+  stub = fopen(base, "w");
+  if (! ifp || ! mfp || ! sfp || ! stub) return eslFAIL;
+  for (i = 0; i < n; i++) {
+    if (names[i].n > mxn) mxn = names[i].n;
+    if (accs[i].n > mxa) mxa = accs[i].n;
+    if (descs[i].n > mxd) mxd = descs[i].n;
+    if ((uint64_t) dsqs[i].n > mxl) mxl = dsqs[i].n;
+    nres += dsqs[i].n;
+  }
+  fwrite(&magic, 4, 1, ifp); fwrite(&tag, 4, 1, ifp); fwrite(&alphatype, 4, 1, ifp); fwrite(&flags, 4, 1, ifp);
+  fwrite(&mxn, 4, 1, ifp); fwrite(&mxa, 4, 1, ifp); fwrite(&mxd, 4, 1, ifp); fwrite(&mxl, 8, 1, ifp); fwrite(&nseq, 8, 1, ifp); fwrite(&nres, 8, 1, ifp);
+  fwrite(&magic, 4, 1, mfp); fwrite(&tag, 4, 1, mfp);
+  fwrite(&magic, 4, 1, sfp); fwrite(&tag, 4, 1, sfp);
+  for (i = 0; i < n; i++) {
+    int64_t L = dsqs[i].n; int P = 0; ESL_DSQDATA_RECORD rec;
+    ESL_DSQ  *dsq = malloc(L + 2);
+    uint32_t *psq = malloc(sizeof(uint32_t) * ESL_MAX(1, (L + 5) / 6));
+    dsq[0] = eslDSQ_SENTINEL; memcpy(dsq + 1, dsqs[i].p, L); dsq[L+1] = eslDSQ_SENTINEL;
+    if (amino) dsqdata_pack5(dsq, (int) L, psq, &P); else dsqdata_pack2(dsq, (int) L, psq, &P);
+    fwrite(psq, 4, P, sfp); spos += P;
+    fwrite(names[i].p, 1, names[i].n + 1, mfp); fwrite(accs[i].p, 1, accs[i].n + 1, mfp); fwrite(descs[i].p, 1, descs[i].n + 1, mfp);
+    fwrite(&taxids[i], 4, 1, mfp); mpos += names[i].n + accs[i].n + descs[i].n + 3 + 4;
+    rec.psq_end = spos - 1; rec.metadata_end = mpos - 1;
+    fwrite(&rec, sizeof(rec), 1, ifp);
+    free(dsq); free(psq);
+  }
+  fprintf(stub, "Easel dsqdata v1 x%" PRIu32 "\n\nhand-written by the C12 harness\n", tag);
+  fclose(ifp); fclose(mfp); fclose(sfp); fclose(stub);
+  return eslOK;
+}
+
 static void op_dsqrt(void)
 {
   const char *abcname = h_arg("abc") ? h_arg("abc") : "dna";
   int maxseq = (int) h_argi("maxseq", 0), maxpacket = (int) h_argi("maxpacket", 0), U = (int) h_argi("unpackers", 0);
   int C = (int) h_argi("consumers", 1);
   uint64_t seed = h_argu("seed", 1);
-  BYTES *names, *descs, *dsqs; int n1, n2, n3, i, k, bad = -1, miss = 0, st;
+  BYTES *names, *descs, *dsqs, *accs = NULL; int n1, n2, n3, n4 = 0, i, k, bad = -1, miss = 0, st;
+  int raw = (h_arg("writer") && strcmp(h_arg("writer"), "raw") == 0);
+  int32_t *taxids = NULL;
   ESL_ALPHABET *abc = esl_alphabet_Create(strcmp(abcname, "amino") == 0 ? eslAMINO : eslDNA);
   ESL_SQFILE *sqfp = NULL; FILE *fp; char base[256], fa[300], path[300], errbuf[eslERRBUFSIZE];
   pthread_t th[8]; CARG ca[8]; void *r;
@@ -604,7 +647,22 @@ static void op_dsqrt(void)
 
   n1 = split_hexlist(h_arg("names"), &names); n2 = split_hexlist(h_arg("descs"), &descs); n3 = split_hexlist(h_arg("dsq"), &dsqs);
   if (n1 != n2 || n1 != n3 || C < 1 || C > 8 || U > eslDSQDATA_UMAX) { h_out("bad-op"); goto DONE; }
+  taxids = malloc(sizeof(int32_t) * (n1 + 1));
+  for (i = 0; i < n1; i++) taxids[i] = -1;
+  if (raw) {
+    const char *t = h_arg("taxids");
+    n4 = split_hexlist(h_arg("accs"), &accs);
+    if (n4 != n1) { h_out("bad-op"); goto DONE; }
+    for (i = 0; t && i < n1 && *t; i++) { char *e; taxids[i] = (int32_t) strtol(t, &e, 10); t = (*e == ',') ? e + 1 : e; }
+  } else {
+    accs = malloc(sizeof(BYTES) * (n1 + 1)); n4 = n1;
+    for (i = 0; i < n1; i++) { accs[i].p = calloc(1, 1); accs[i].n = 0; }
+  }
   snprintf(base, sizeof(base), "c12_%d.db", (int) getpid()); snprintf(fa, sizeof(fa), "%s.fa", base);
+  if (raw) {
+    if (raw_write(base, strcmp(abcname, "amino") == 0, n1, names, accs, descs, taxids, dsqs) != eslOK) { h_out("esys"); goto CLEAN; }
+    goto WRITTEN;
+  }
   if ((fp = fopen(fa, "w")) == NULL) { h_out("esys"); goto DONE; }
   for (i = 0; i < n1; i++) {
     fprintf(fp, ">%s", (char *) names[i].p);
@@ -619,7 +677,7 @@ static void op_dsqrt(void)
   st = esl_dsqdata_Write(sqfp, base, errbuf);
   esl_sqfile_Close(sqfp);
   if (st != eslOK) { h_out("write-%s", h_status(st)); goto CLEAN; }
-
+ WRITTEN:
   esl_verif_dsqdata_maxseq = maxseq; esl_verif_dsqdata_maxpacket = maxpacket; esl_verif_dsqdata_unpackers = U;
   g_perturb = (int) h_argi("pert", 30);
   memset(&tctx, 0, sizeof(tctx)); tctx.rng = seed * 0x9E3779B97F4A7C15ull + 11;
@@ -643,7 +701,7 @@ static void op_dsqrt(void)
   for (i = 0; i < n1; i++) {
     RREC *q = &rt_rec[i];
     if (! q->filled) { miss++; if (bad < 0) bad = i; continue; }
-    if (bad < 0 && (strcmp(q->name, (char *) names[i].p) != 0 || q->acc[0] != 0 || strcmp(q->desc, (char *) descs[i].p) != 0 || q->taxid != -1
+    if (bad < 0 && (strcmp(q->name, (char *) names[i].p) != 0 || strcmp(q->acc, (char *) accs[i].p) != 0 || strcmp(q->desc, (char *) descs[i].p) != 0 || q->taxid != taxids[i]
                     || q->L != dsqs[i].n || q->dsq[0] != eslDSQ_SENTINEL || q->dsq[q->L + 1] != eslDSQ_SENTINEL
                     || memcmp(q->dsq + 1, dsqs[i].p, dsqs[i].n) != 0)) bad = i;
     h = fnv_bytes(h, q->name, strlen(q->name) + 1); h = fnv_bytes(h, q->acc, strlen(q->acc) + 1); h = fnv_bytes(h, q->desc, strlen(q->desc) + 1);
@@ -669,7 +727,8 @@ static void op_dsqrt(void)
   for (i = 0; i < n1; i++) free(names[i].p);
   for (i = 0; i < n2; i++) free(descs[i].p);
   for (i = 0; i < n3; i++) free(dsqs[i].p);
-  free(names); free(descs); free(dsqs);
+  for (i = 0; i < n4; i++) free(accs[i].p);
+  free(names); free(descs); free(dsqs); free(accs); free(taxids);
   esl_alphabet_Destroy(abc);
 }
 
